@@ -31,6 +31,8 @@ CONFIGS = {
         ("single-column", '<<"varchar", "int">>', "<<0>>", "<<1>>", 1, ",", True, ALL, 3, 1),
         ("one-of-many", '<<"int", "varchar", "boolean">>', "<<2>>", "<<3>>", 4, ";", True, ALL, 2, 1),
         ("long", '<<"int", "varchar">>', "<<0, 1>>", "<<1, 2>>", 2, ",", False, '{"valid", "badnum"}', 10, 10),
+        # one CSV field feeding two columns
+        ("fan-out", '<<"varchar", "int", "varchar">>', "<<0, 1, 0>>", "<<1, 2, 3>>", 2, ";", True, ALL, 2, 1),
     ],
     "thorough": [
         ("full-identity", FULL, "<<0, 1, 2, 3>>", "<<1, 2, 3, 4>>", 4, ",", False, ALL, 4, 1),
@@ -45,6 +47,7 @@ CONFIGS = {
         ("one-of-many", '<<"int", "varchar", "boolean">>', "<<2>>", "<<3>>", 4, ";", True, ALL, 3, 1),
         ("two-bigints", '<<"bigint", "boolean", "bigint">>', "<<0, 2, 1>>", "<<3, 1, 2>>", 3, ";", False, ALL, 3, 1),
         ("long", '<<"int", "varchar">>', "<<0, 1>>", "<<1, 2>>", 2, ",", False, '{"valid", "badnum"}', 12, 1),
+        ("fan-out", '<<"varchar", "int", "varchar">>', "<<0, 1, 0>>", "<<1, 2, 3>>", 2, ";", True, ALL, 3, 1),
         ("long-mixed", '<<"varchar", "boolean">>', "<<1, 0>>", "<<1, 2>>", 2, "|", False,
          '{"valid", "malformed", "short"}', 7, 1),
     ],
